@@ -56,6 +56,7 @@ func runC13(c *core.Ctx) {
 	globalsRule(c, "C13-GLOBALS")
 	poolTypestate(c, "C13-POOL")
 	goRule(c)
+	unsafeRule(c, "C13-POOL")
 	// positive fixture
 	overlay := map[string][]byte{c.Prog.Dir + "/packet/zz_verif_fixture.go": []byte(c13Fixture)}
 	fprog, err := load.LoadOverlay(c.Prog.Dir, "", overlay)
@@ -286,7 +287,7 @@ func goRule(c *core.Ctx) {
 				case *ssa.Go:
 					isGo = true
 				case *ssa.Call:
-					if cal := x.Call.StaticCallee(); cal != nil && cal.Name() == "Go" && cal.Pkg != nil && strings.HasSuffix(cal.Pkg.Pkg.Path(), "errgroup") {
+					if cal := x.Call.StaticCallee(); cal != nil && (cal.Name() == "Go" || cal.Name() == "TryGo") && cal.Pkg != nil && strings.HasSuffix(cal.Pkg.Pkg.Path(), "errgroup") {
 						isGo = true
 					}
 				}
